@@ -453,19 +453,19 @@ func (f *FuncVC) appendBuiltin(st *State, x *ssa.Call) *Val {
 		} else {
 			fr := f.sc.fresh("aarr")
 			f.sc.declare(fr, arraySort(1, sorts[i]))
-			q := f.sc.fresh("k")
+			q := f.sc.fresh("j")
 			var tv string
 			if tIsStr {
-				tv = fmt.Sprintf("(gstr.at %s (- %s %s))", t.T, q, ln)
+				tv = fmt.Sprintf("(gstr.at %s (- (- %s %s) %s))", t.T, q, dstOff, ln)
 			} else {
-				tv = fmt.Sprintf("(select (select %s %s) (+ %s (- %s %s)))", h, tref, toff, q, ln)
+				tv = fmt.Sprintf("(select (select %s %s) (+ %s (- (- %s %s) %s)))", h, tref, toff, q, dstOff, ln)
 			}
-			// elements relative to dstOff
-			f.sc.assert(fmt.Sprintf("(forall ((%s Int)) (! (and (=> (and (<= 0 %s) (< %s %s)) (= (select %s (+ %s %s)) (select %s (+ %s %s)))) (=> (and (<= %s %s) (< %s %s)) (= (select %s (+ %s %s)) %s))) :pattern ((select %s (+ %s %s)))))",
-				q, q, q, ln, fr, dstOff, q, src, off, q, ln, q, q, newLen, fr, dstOff, q, tv, fr, dstOff, q))
-			// in place: everything outside [off+len, off+newLen) is unchanged
-			q2 := f.sc.fresh("k")
-			f.sc.assert(implies(fits, fmt.Sprintf("(forall ((%s Int)) (! (=> (or (< %s (+ %s %s)) (>= %s (+ %s %s))) (= (select %s %s) (select %s %s))) :pattern ((select %s %s))))", q2, q2, off, ln, q2, off, newLen, fr, q2, src, q2, fr, q2)))
+			f.sc.assert(fmt.Sprintf("(forall ((%s Int)) (! (and (=> (and (<= %s %s) (< %s (+ %s %s))) (= (select %s %s) (select %s (+ %s (- %s %s))))) (=> (and (<= (+ %s %s) %s) (< %s (+ %s %s))) (= (select %s %s) %s)) (=> (and %s (or (< %s (+ %s %s)) (>= %s (+ %s %s)))) (= (select %s %s) (select %s %s)))) :pattern ((select %s %s))))",
+				q,
+				dstOff, q, q, dstOff, ln, fr, q, src, off, q, dstOff,
+				dstOff, ln, q, q, dstOff, newLen, fr, q, tv,
+				fits, q, off, ln, q, off, newLen, fr, q, src, q,
+				fr, q))
 			arr = fr
 		}
 		f.setHeap(st, hn, hs, store(h, rRef, arr))
